@@ -121,6 +121,7 @@ func runC06(c *Ctx) {
 
 	const r2 = "C06.R2 close sites follow their joins"
 	dc := dlr + "close"
+	ruleTimersStoppedOnRemoval(c, r2)
 	c.Before(r2, dc, "pending call timers cancelled before the close", `^send:%d\.actionChan<-closure:router\.\(\*dealer\)\.close\$1$`, `^call:builtin:close\(%d\.actionChan\)$`)
 	c.Before(r2, dc, "timer goroutines joined before the close", `^call:\(\*sync\.WaitGroup\)\.Wait\(%d\.&timers\)$`, `^call:builtin:close\(%d\.actionChan\)$`)
 	c.Before(r2, dc, "timers cancelled before waiting for them", `^send:%d\.actionChan<-`, `^call:\(\*sync\.WaitGroup\)\.Wait\(%d\.&timers\)$`)
@@ -204,8 +205,7 @@ func runC06(c *Ctx) {
 	stopArm := clause("session told to stop", T(`^\(select\{recv:.*RecvDone\(%sess\)\}#0 == 1\)$`))
 	c.Reach(r4, him, "nothing is routed once the session was told to stop", ReachSpec{FromEdge: &stopArm, Target: `^call:router\.\(\*(broker|dealer)\)\.`, Want: false})
 	c.Reach(r4, him, "a stopped session's handler returns", ReachSpec{FromEdge: &stopArm, Stop: `^return:`, Target: `^select\{recv:`, Want: false})
-	c.Guard(r4, him, "shutdown reported to the handler", `^store:new\(bool\)=true$`, 1, clause("goodbye is the shutdown (or no) goodbye",
-		T(`^\(\*g:router\.shutdownGoodbye == call:wamp\.\(\*Session\)\.Goodbye\(%sess\)\)$`), T(`^\(\*g:wamp\.NoGoodbye == call:wamp\.\(\*Session\)\.Goodbye\(%sess\)\)$`)))
+	ruleShutdownFlag(c, r4)
 	c.R.Floor(r4, 10)
 
 	const r5 = "C06.R5 peers closed after removal or after dealer/broker stopped"
@@ -215,4 +215,13 @@ func runC06(c *Ctx) {
 	const r6 = "C06.R6 shutdown never blocks on a client"
 	ruleNonBlocking(c, r6)
 	c.R.Floor(r6, 25)
+}
+
+// ruleShutdownFlag: the session handler reports "realm shutdown" (which makes the leave action skip the removal from
+// dealer and broker and hand the peer to realm.close) only for the router's own shutdown goodbye or a closed
+// transport — compared by identity, never by a reason a client or a meta-API caller can choose.
+func ruleShutdownFlag(c *Ctx, r4 string) {
+	him := rlm + "handleInboundMessages"
+	c.Guard(r4, him, "shutdown reported to the handler", `^store:new\(bool\)=true$`, 1, clause("goodbye is the shutdown (or no) goodbye",
+		T(`^\(\*g:router\.shutdownGoodbye == call:wamp\.\(\*Session\)\.Goodbye\(%sess\)\)$`), T(`^\(\*g:wamp\.NoGoodbye == call:wamp\.\(\*Session\)\.Goodbye\(%sess\)\)$`)))
 }
